@@ -189,23 +189,24 @@ type Failure struct {
 }
 
 type Ctx struct {
-	Prop     string
-	Tier     string
-	Seed     uint64
-	Oracles  []*Oracle
-	start    time.Time
-	mu       sync.Mutex
-	evals    int64
-	nontriv  map[uint64]struct{}
-	dist     map[string]int64
-	samples  []any
-	fails    []Failure
-	corrOK   int64
-	corrBad  int64
-	rule     string
-	notes    []string
-	assume   []string
-	families []*Family
+	truncated bool
+	Prop      string
+	Tier      string
+	Seed      uint64
+	Oracles   []*Oracle
+	start     time.Time
+	mu        sync.Mutex
+	evals     int64
+	nontriv   map[uint64]struct{}
+	dist      map[string]int64
+	samples   []any
+	fails     []Failure
+	corrOK    int64
+	corrBad   int64
+	rule      string
+	notes     []string
+	assume    []string
+	families  []*Family
 	failCount map[string]int
 }
 
@@ -370,6 +371,9 @@ func (x *Ctx) runFamilies(only string, onlySeed uint64, replay bool, replayIdx .
 					if i >= n {
 						return
 					}
+					if x.overBudget() {
+						return
+					}
 					cs := mix(x.Seed, f.Name, uint64(i))
 					idx := i
 					if replay {
@@ -397,6 +401,32 @@ func (x *Ctx) runFamilies(only string, onlySeed uint64, replay bool, replayIdx .
 		}
 		wg.Wait()
 	}
+}
+
+// overBudget: failures are already recorded and the run has taken far longer than any run on a tree where the
+// property holds (those finish in about a minute / twenty minutes): stop scheduling further cases so that the
+// findings are reported instead of the check running for hours (code under test that stops answering makes
+// every remaining case wait for its timeouts).  Never true while nothing has failed.
+var runStart = time.Now()
+
+func (x *Ctx) overBudget() bool {
+	budget := 12 * time.Minute
+	if x.Tier == "thorough" {
+		budget = 90 * time.Minute
+	}
+	if time.Since(runStart) < budget {
+		return false
+	}
+	x.mu.Lock()
+	defer x.mu.Unlock()
+	if len(x.failCount) == 0 {
+		return false
+	}
+	if !x.truncated {
+		x.truncated = true
+		fmt.Println("NOTE: time budget exceeded with failures already recorded; remaining cases are not run")
+	}
+	return true
 }
 
 // ---------------------------------------------------------------- known findings
